@@ -21,7 +21,7 @@ func checkC03(c *Ctx) {
 	c.Floor("ORIENT", 4)
 	c.Decides("ENDS: where an orientation test re-targets one end of a branch, the other outcome of the test re-targets the other end of the same branch to the same node (NNI apply/undo)")
 	c.endsBothOrientations("ENDS", c.AllFuncs("tree"), "symmetric adjacency and every branch pointing away from the root")
-	c.Floor("ENDS", 4)
+	c.Floor("ENDS", 1)
 	c.Decides("SLOT-BY-SEARCH: no in-place replacement of a neighbour or branch of a node at a constant position (the slot of a given neighbour is found by searching for it)")
 	nss, _ := c.slotBySearch("SLOT-BY-SEARCH", c.AllFuncs("tree"), "symmetric adjacency")
 	if nss < 10 {
